@@ -194,7 +194,7 @@ pub fn step(wid: &str) -> Result<(String, u64), StepErr> {
     let s0 = w.stops;
     w.permits += 1;
     g.cv.notify_all();
-    let deadline = Instant::now() + Duration::from_secs(10);
+    let deadline = Instant::now() + Duration::from_secs(60);
     loop {
         let w = &st.workers[wid];
         if w.stops > s0 && (w.parked.is_some() || w.exited) {
@@ -228,7 +228,7 @@ pub fn sent_total() -> u64 {
 pub fn wait_parked(wid: &str) -> bool {
     let g = gate();
     let mut st = g.st.lock().unwrap();
-    let deadline = Instant::now() + Duration::from_secs(10);
+    let deadline = Instant::now() + Duration::from_secs(60);
     loop {
         if let Some(w) = st.workers.get(wid) {
             if w.parked.is_some() || w.exited {
@@ -263,7 +263,7 @@ pub fn worker_count() -> usize {
 pub fn wait_new_worker(n_before: usize) -> Option<String> {
     let g = gate();
     let mut st = g.st.lock().unwrap();
-    let deadline = Instant::now() + Duration::from_secs(10);
+    let deadline = Instant::now() + Duration::from_secs(60);
     loop {
         if st.order.len() > n_before {
             return Some(st.order[n_before].clone());
